@@ -150,7 +150,7 @@ def c08_step(tr, st, c):
                                 cell=[int(x) for x in j], before=float(r0[j]), delivered=float(got[j]), after=float(r1v[j]), quantum=q))
             if (r1v < 0).any():
                 out.append(viol("C08", t, f"event {i}: negative remaining demand"))
-            if (r1v > r0 + q / 2 * (1 + 1e-6)).any():
+            if (r1v > r0 + q / 2 * (1 + 1e-6) + 1e-12 * np.abs(r0)).any():
                 out.append(viol("C08", t, f"event {i}: remaining demand increased"))
             if fld == "remI":
                 # only rebuilding sectors hold demand
@@ -212,9 +212,9 @@ def c09_step(tr, st, c):
                                 cell=j, got=float(got[j]), expected=float(want[j]), curve=ev["curve"], tau=tau, elapsed=el, initial=float(D[j])))
             if (got < 0).any():
                 out.append(viol("C09", t, f"event {i}: negative {f_}", min=float(got.min())))
-            if (got > D + q_ / 2 * (1 + 1e-6)).any():
+            if (got > D + q_ / 2 * (1 + 1e-6) + 1e-12 * np.abs(D)).any():
                 out.append(viol("C09", t, f"event {i}: {f_} exceeds the initial damage"))
-            if (got > a[f_] + q_ * (1 + 1e-6)).any():
+            if (got > a[f_] + q_ * (1 + 1e-6) + 1e-12 * np.abs(D)).any():
                 out.append(viol("C09", t, f"event {i}: {f_} increased during recovery (built-in curve)"))
         if ev["curve"] == "linear" and dt == 1 and el >= tau and b["status"] != "finished":
             out.append(viol("C09", t, f"event {i}: linear recovery not finished after tau = {tau} recovery steps", status=b["status"]))
